@@ -51,6 +51,8 @@ pub struct Plan {
     /// seeded random delay (0..max_delay_us) before and after forwarding put / upload_shard
     pub delay_seed: Option<u64>,
     pub max_delay_us: u64,
+    /// answer successful shard uploads with Ok(false) ("already exists")
+    pub shard_reply_exists: bool,
 }
 
 pub struct Log {
@@ -230,7 +232,8 @@ impl VerifRegistrationClient for MonitoredClient {
         let res = if self.plan.fail.contains_key(&(Op::UploadShard, ord)) {
             Err(injected())
         } else {
-            self.inner.upload_shard(prefix, hash, force_sync, shard_data, salt).await
+            let r = self.inner.upload_shard(prefix, hash, force_sync, shard_data, salt).await;
+            if self.plan.shard_reply_exists { r.map(|_| false) } else { r }
         };
         self.maybe_delay().await;
         let mut e = self.ev(Op::UploadShard, false, ord, hash);
